@@ -894,6 +894,10 @@ pub enum TOp {
     Size(usize),
     /// `Object::take(client)`
     Take(usize),
+    /// `client.prepare_typed_cached(key)` - a miss goes to the scripted server:
+    /// the calling thread drives the tokio runtime itself (`block_on`), so at
+    /// most one thread of a scenario prepares
+    Prepare(usize, usize),
 }
 
 #[derive(Clone, Debug)]
@@ -904,9 +908,12 @@ pub struct C16TScenario {
 fn tkey(k: usize) -> (&'static str, Vec<Type>) {
     match k {
         0 => (QUERIES[0], vec![]),
-        _ => (QUERIES[0], vec![Type::INT4]),
+        1 => (QUERIES[0], vec![Type::INT4]),
+        // not cached by the set-up
+        _ => (QUERIES[1], vec![]),
     }
 }
+const TKEYS: usize = 3;
 
 struct TRec {
     op: TOp,
@@ -921,7 +928,7 @@ pub fn run_c16_threads(sc: &C16TScenario) -> Outcome {
     use std::rc::Rc;
     sched::begin();
     W.with(|c| *c.borrow_mut() = Some(World::default()));
-    let rt = tokio::runtime::Builder::new_current_thread().enable_time().start_paused(true).build().expect("runtime");
+    let rt = Rc::new(tokio::runtime::Builder::new_current_thread().enable_time().start_paused(true).build().expect("runtime"));
     // keys cached at the start: client 0 holds keys 0 and 1, client 1 holds key 0
     let initial: [Vec<usize>; 2] = [vec![0, 1], vec![0]];
     let (pool, objs) = rt.block_on(async {
@@ -954,7 +961,7 @@ pub fn run_c16_threads(sc: &C16TScenario) -> Outcome {
             break;
         }
         let script = script.clone();
-        let (pool, caches, objs, taken, recs, tick) = (pool.clone(), caches.clone(), objs.clone(), taken.clone(), recs.clone(), tick.clone());
+        let (pool, caches, objs, taken, recs, tick, rt) = (pool.clone(), caches.clone(), objs.clone(), taken.clone(), recs.clone(), tick.clone(), rt.clone());
         sched::spawn(&format!("thread{}", ai), move || {
             for op in script {
                 sched::boundary();
@@ -974,6 +981,18 @@ pub fn run_c16_threads(sc: &C16TScenario) -> Outcome {
                     }
                     TOp::RegClear => pool.manager().statement_caches.clear(),
                     TOp::Size(c) => size = caches[*c].size(),
+                    TOp::Prepare(c, k) => {
+                        let (q, t) = tkey(*k);
+                        // the client is only borrowed for the call; nobody takes
+                        // a client that a scenario prepares on
+                        let guard = objs.borrow();
+                        if let Some(o) = guard[*c].as_ref() {
+                            let cw: &ClientWrapper = o;
+                            // SAFETY of the borrow: `objs` is not mutated while this
+                            // thread is suspended inside the call (scenario shape)
+                            hit = rt.block_on(cw.prepare_typed_cached(q, &t)).is_ok();
+                        }
+                    }
                     TOp::Take(c) => {
                         let o = objs.borrow_mut()[*c].take();
                         if let Some(o) = o {
@@ -1020,10 +1039,11 @@ pub fn run_c16_threads(sc: &C16TScenario) -> Outcome {
     if setup_ok && matches!(verdict, Verdict::Done) && machinery.is_none() && w(|w| w.viol.is_empty()) {
         let recs = recs.borrow();
         // a statement can be handed back by remove() only once
+        let prepares = |c: usize, k: usize| recs.iter().filter(|r| matches!(&r.op, TOp::Prepare(cc, kk) if *cc == c && *kk == k)).count();
         for c in 0..2 {
-            for k in 0..2 {
+            for k in 0..TKEYS {
                 let n = recs.iter().filter(|r| matches!(&r.op, TOp::CacheRemove(cc, kk) if *cc == c && *kk == k) && r.hit).count();
-                if n > 1 {
+                if n > 1 + prepares(c, k) {
                     bad("statement-removed-twice", format!("{} remove() calls returned the one cached statement of client {} key {}", n, c, k));
                 }
             }
@@ -1032,8 +1052,9 @@ pub fn run_c16_threads(sc: &C16TScenario) -> Outcome {
         // that were cached (nothing is inserted in this phase)
         for r in recs.iter() {
             if let TOp::Size(c) = r.op {
-                if r.size > initial[c].len() {
-                    bad("cache-size-exceeds-keys", format!("size() of client {} read {} while at most {} keys were cached", c, r.size, initial[c].len()));
+                let most = initial[c].len() + (0..TKEYS).filter(|k| !initial[c].contains(k) && prepares(c, *k) > 0).count();
+                if r.size > most {
+                    bad("cache-size-exceeds-keys", format!("size() of client {} read {} while at most {} keys were cached", c, r.size, most));
                 }
             }
         }
@@ -1045,7 +1066,12 @@ pub fn run_c16_threads(sc: &C16TScenario) -> Outcome {
         for c in order {
             // which keys must be gone / must still be there / may be either
             let mut expect: Vec<Option<bool>> = Vec::new(); // Some(true) present, Some(false) absent, None either
-            for k in 0..2 {
+            for k in 0..TKEYS {
+                if prepares(c, k) > 0 {
+                    // prepared (again) while removes / clears ran: either
+                    expect.push(None);
+                    continue;
+                }
                 if !initial[c].contains(&k) {
                     expect.push(Some(false));
                     continue;
@@ -1087,7 +1113,7 @@ pub fn run_c16_threads(sc: &C16TScenario) -> Outcome {
                     bad("registry-reached-taken-client", format!("statement_caches.clear() after client {} was taken changed its cache size from {} to {}", c, size, caches[c].size()));
                 }
             }
-            for k in 0..2 {
+            for k in 0..TKEYS {
                 let (q, t) = tkey(k);
                 present.push(caches[c].remove(q, &t).is_some());
             }
@@ -1095,7 +1121,10 @@ pub fn run_c16_threads(sc: &C16TScenario) -> Outcome {
             if size != n {
                 bad("cache-size", format!("at rest: size() of client {} is {} but {} keys are cached", c, size, n));
             }
-            for k in 0..2 {
+            if caches[c].size() != 0 {
+                bad("cache-size", format!("at rest: every key of client {} was removed but size() is {}", c, caches[c].size()));
+            }
+            for k in 0..TKEYS {
                 match expect[k] {
                     Some(true) if !present[k] => bad("cached-statement-lost", format!("client {} key {}: no call removed it but it is no longer cached", c, k)),
                     Some(false) if present[k] => {
@@ -1142,6 +1171,8 @@ pub fn thread_scenarios(tier: Tier) -> Vec<Scenario> {
     add("remove-vs-clear", "remove() racing with clear() on one cache", p, vec![vec![CacheRemove(0, 0), Size(0)], vec![CacheClear(0), Size(0)]]);
     add("registry-vs-cache", "registry remove() / clear() racing with remove() on the clients' own caches", p, vec![vec![RegRemove(0), Size(1)], vec![CacheRemove(0, 0), CacheRemove(1, 0)], vec![RegClear]]);
     add("registry-vs-take", "registry remove() and clear() racing with Object::take() of one client (its cache leaves the registry)", p, vec![vec![RegRemove(0), RegClear], vec![Take(1)], vec![Size(0)]]);
+    add("prepare-vs-clear", "a prepare that misses (round trip to the scripted server, then insert) racing with clear() on the cache and through the registry", p, vec![vec![Prepare(0, 2), Size(0)], vec![CacheClear(0)], vec![RegClear]]);
+    add("prepare-vs-remove", "a miss and a hit racing with remove() of the same keys", p, vec![vec![Prepare(0, 2), Prepare(0, 0)], vec![CacheRemove(0, 2), CacheRemove(0, 0), Size(0)]]);
     if thorough {
         add("registry-vs-registry", "two registry calls and two cache calls at once", p, vec![vec![RegRemove(0)], vec![RegRemove(0), RegRemove(1)], vec![CacheClear(1), Take(0)]]);
         add("four-threads", "remove, clear, registry remove and take on four threads", 2, vec![vec![CacheRemove(0, 1)], vec![CacheClear(0)], vec![RegRemove(1)], vec![Take(0)]]);
